@@ -21,7 +21,7 @@ package parser
 //@   at call Parse$3#* modifies syntaxHighlighted, reset
 //@   at call Parse$4#* modifies syntaxHighlighted
 //@   at call Parse$5#* modifies syntaxHighlighted, reset
-//@   at call Parse$6#* modifies pt.ExpectParam, pt.Parameters, pt.pop
+//@   at call Parse$6#* modifies pt.ExpectParam, pt.Parameters, elems(pt.Parameters), pt.pop
 //@   at call Parse$7#* modifies pt.Escaped, pt.FuncName, pt.Parameters, elems(pt.Parameters), syntaxHighlighted, reset
 //@   loop 1 step imp(old(pt.Unsafe), pt.Unsafe)
 // a `$` (variable or sub-shell) outside comments, escapes, single quotes and variable names marks the line unsafe
